@@ -180,7 +180,7 @@ prop("C02",
 
 prop("C14",
      pure=["openenc"],
-     scripts=lambda tier, rnd: S.open_encode(rnd, 20 if tier == "quick" else 400),
+     scripts=lambda tier, rnd: S.open_encode(rnd, 20 if tier == "quick" else 400) + S.two_sessions() + sample(S.pacing(), rnd, 40 if tier == "thorough" else 10),
      mc=lambda tier: [mc_pair(["openLo", "ka"], conns=1, msgs=2)],
      nontrivial=lambda s, r: True,
      rule="local AS / hold time / router id x plugin capability lists (incl. code 65, oversize values, totals straddling 253); "
